@@ -7,8 +7,12 @@ latitudes x longitudes of the tier x zenith x azimuth angles, none singular
 (zenith/nadir and poles are excluded by the statement; lines of sight exactly
 in the meridian plane, aa = 0 and 180, are regular directions but
 ill-conditioned in typhon's arccos formulation and are checked in a part of
-their own with a conditioning-based azimuth tolerance); called with scalars, as one 1-D array, as one 5-D array, as
-five broadcastable axes and as scalars with a vector of azimuths.
+their own with a conditioning-based azimuth tolerance; likewise zenith angles
+0.01..0.1 deg from zenith/nadir, part "near-zenith"); called with scalars, as
+one 1-D array, as one 5-D array, as five broadcastable axes and as scalars
+with a vector of azimuths. A line of sight is a direction: every call with
+array arguments is repeated with (dx, dy, dz) scaled by LOS_SCALES and must
+return the same angles.
 """
 import itertools
 
@@ -19,10 +23,10 @@ from checks import c07_ref as ref
 from checks.c07_common import LATTICES, compare, same
 
 RADII = [6.36e6, 6.3781e6, 7.3781e6]
-# Angles stay >= 1 deg away from zenith/nadir and from the meridian plane:
-# typhon's arccos-based azimuth loses digits like eps / (sin(za)^2 sin(aa))
-# next to them (6e-4 deg at za = 0.01, aa = 179.99), the neighbourhood the
-# statement excludes as singular.
+# The main lattice stays >= 1 deg away from zenith/nadir and from the meridian
+# plane, where 1e-6 deg is attainable: an azimuth taken from a cartesian line
+# of sight loses digits like eps / (sin(za)^2 sin(aa)) next to them. Closer
+# angles are checked in the parts "meridian" and "near-zenith".
 ANGLES = {      # tier -> (zenith angles, azimuth angles)
     "quick": ([1.0, 30.0, 90.0, 150.0, 179.0],
               [-170.0, -90.0, -1.0, 1.0, 45.0, 90.0, 179.0]),
@@ -34,6 +38,12 @@ NAMES = ("r", "lat", "lon", "za", "aa")
 UNITS = ("m", "deg", "deg", "los", "los")
 UNITS_MERIDIAN = ("m", "deg", "deg", "los", "los-meridian")
 MERIDIAN_AZIMUTHS = [0.0, 180.0]
+# regular directions on the regular side of typhon's zenith/nadir threshold
+# (1e-6 deg), combined with the tier's azimuths
+NEAR_ZENITHS = {"quick": [0.01, 179.9],
+                "thorough": [0.01, 0.1, 179.9, 179.99]}
+LOS_SCALES = (1e-3, 7.0)
+K_NEAR = 64     # roundings of size eps entering cos(aa), see near_units()
 
 
 def axes(tier):
@@ -45,9 +55,23 @@ def shards(tier, seed):
     out = [("poslos", tier, "scalar", i, j) for i in range(len(RADII))
            for j in range(len(lats))]
     out += [("poslos", tier, shape, None, None)
-            for shape in ("flat", "grid", "axes", "aa-vector")]
-    out += [("poslos", tier, "meridian", i, None) for i in range(len(RADII))]
+            for shape in ("flat", "grid", "axes")]
+    out += [("poslos", tier, part, i, None) for i in range(len(RADII))
+            for part in ("aa-vector", "meridian", "near-zenith")]
     return out
+
+
+def near_units(za, aa):
+    """Azimuth tolerance next to zenith/nadir. typhon (like any evaluation
+    from the cartesian line of sight) forms cos(aa) = north component /
+    sin(za): component and sin(za) = sqrt(1 - dr^2) carry absolute errors of
+    a few eps, i.e. cos(aa) one of K eps / sin(za)^2, and the arccos divides
+    by |sin(aa)|. 1.6e-3 deg at za = 0.01, aa = 1 deg: a forced aa = 0 is
+    still 600 tolerances away."""
+    za, aa = np.deg2rad(za), np.deg2rad(aa)
+    tol = 1e-6 + np.rad2deg(K_NEAR * ref.EPS
+                            / (np.sin(za) ** 2 * np.abs(np.sin(aa))))
+    return ("m", "deg", "deg", "los", (tol, "deg", True))
 
 
 def blocks(tier, shape, i, j):
@@ -59,16 +83,21 @@ def blocks(tier, shape, i, j):
             _, lat, lon, za, aa = point
             yield k, point, (abs(lat) > 1e-6 and lon != 0 and za != 90
                              and abs(aa) != 90)
-    elif shape == "meridian":
-        # due north / due south, scalar calls and one array call per radius
+    elif shape in ("meridian", "near-zenith"):
+        # due north / due south resp. almost straight up / down: scalar
+        # calls and one array call per radius
+        if shape == "meridian":
+            azimuths = MERIDIAN_AZIMUTHS
+        else:
+            zeniths = NEAR_ZENITHS[tier]
         pts = list(itertools.product([radii[i]], lats, lons, zeniths,
-                                     MERIDIAN_AZIMUTHS))
+                                     azimuths))
         for k, point in enumerate(pts):
             yield k, point, True
         yield len(pts), tuple(np.array(c) for c in zip(*pts)), True
     elif shape == "aa-vector":
         for k, point in enumerate(itertools.product(
-                radii, lats, lons, zeniths)):
+                [radii[i]], lats, lons, zeniths)):
             yield k, point + (np.array(azimuths),), True
     else:
         grid = np.meshgrid(*axes(tier), indexing="ij")
@@ -81,27 +110,45 @@ def blocks(tier, shape, i, j):
                            for n, ax in enumerate(axes(tier))), True
 
 
-def call(fname, args):
+def call(fname, args, nout):
+    """(tuple of nout results, None) or (None, violation)."""
     from typhon import geodesy
     try:
-        return getattr(geodesy, fname)(*args), None
+        out = getattr(geodesy, fname)(*args)
     except Exception as exc:
         return None, ("exception/%s/%s" % (fname, type(exc).__name__),
                       list(np.broadcast(*args).shape), repr(exc),
                       "arguments of %d dimensions" % np.broadcast(*args).ndim)
+    if not isinstance(out, tuple) or len(out) != nout:
+        return None, ("%s/not-%d-values" % (fname, nout), nout,
+                      repr(out)[:100], "")
+    return out, None
+
+
+def units_of(shape_name, args):
+    if shape_name == "meridian":
+        return UNITS_MERIDIAN
+    if shape_name == "near-zenith":
+        return near_units(args[3], args[4])
+    return UNITS
+
+
+def los_scales(args):
+    """1 = the unit vector as returned by geocentricposlos2cart."""
+    return (1.0,) + (LOS_SCALES if np.broadcast(*args).ndim else ())
 
 
 def check(args, units=UNITS):
     """List of violations (key, expected, observed, msg) of one block."""
     shape = np.broadcast(*args).shape
     bad = []
-    fwd, exc = call("geocentricposlos2cart", args)
+    fwd, exc = call("geocentricposlos2cart", args, 6)
     if exc and len(shape) > 1:
         # still exercise the inverse on this shape: take the forward values
         # from the flattened call
         bad.append(exc)
         flat = tuple(np.broadcast_to(a, shape).ravel() for a in args)
-        fwd, exc = call("geocentricposlos2cart", flat)
+        fwd, exc = call("geocentricposlos2cart", flat, 6)
         if fwd is not None:
             fwd = tuple(np.reshape(v, shape) for v in fwd)
     if exc:
@@ -111,13 +158,15 @@ def check(args, units=UNITS):
                   "geocentricposlos2cart")
     if pos:
         return bad + [pos]
-    back, exc = call("cartposlos2geocentric", fwd)
-    if exc:
-        return bad + [exc]
     expected = np.broadcast_arrays(*[ref.ld(a) for a in args])
-    back_bad = compare(back, expected, NAMES, units, shape,
-                       "poslos-roundtrip")
-    return bad + ([back_bad] if back_bad else [])
+    for scale in los_scales(args):
+        los = fwd[3:] if scale == 1 else tuple(scale * d for d in fwd[3:])
+        where = "poslos-roundtrip" + ("" if scale == 1 else "-scaled-los")
+        back, exc = call("cartposlos2geocentric", fwd[:3] + los, 5)
+        back_bad = exc or compare(back, expected, NAMES, units, shape, where)
+        if back_bad:
+            return bad + [back_bad]
+    return bad
 
 
 def run_shard(shard):
@@ -125,9 +174,9 @@ def run_shard(shard):
     res = driver.ShardResult()
     for label, args, nontrivial in blocks(tier, shape, i, j):
         res.case(nontrivial=nontrivial)
-        res.count("poslos_point_comparisons",
-                  int(np.prod(np.broadcast(*args).shape, dtype=int)))
-        units = UNITS_MERIDIAN if shape == "meridian" else UNITS
+        res.count("poslos_point_comparisons", len(los_scales(args))
+                  * int(np.prod(np.broadcast(*args).shape, dtype=int)))
+        units = units_of(shape, args)
         found = check(args, units)
         if found and not same(check(args, units), found):
             res.error("NONDETERMINISM in poslos %r" % (shard,))
@@ -144,7 +193,7 @@ def replay(case):
     for label, args, _ in blocks(case["lattice"], case["shape"], case["i"],
                                  case["j"]):
         if label == case["block"]:
-            units = UNITS_MERIDIAN if case["shape"] == "meridian" else UNITS
+            units = units_of(case["shape"], args)
             return next((bad for bad in check(args, units)
                          if bad[0] == case["check"]), None)
     raise KeyError(case["block"])
